@@ -34,6 +34,7 @@ class Ctx:
         self.defs = {}                              # aux var name -> ('sin'|'cos'|'sqrt'|'inv'|..., arg term)
         self.angles = {}                            # declared angle vars: name -> (lo, hi) degrees
         self.keep = []
+        self.divs = []                              # (denominator term, path condition at the division): definedness obligations
 
     def fresh(self, p):
         self.cnt += 1
@@ -321,6 +322,8 @@ class Sym:
             r = rat(1 / val(c0))
         else:
             key = sem_key('inv', c0)
+            ex_ = paths.CUR
+            C.divs.append((c0, tuple(ex_.pc) if ex_ is not None and getattr(ex_, 'active', False) else (), key))
             if key not in C.memo:
                 r = C.fresh('r')
                 C.cons.append(r * c0 == 1)
@@ -1188,6 +1191,39 @@ class SymNP:
 
     def isscalar(self, a):
         return isinstance(a, Sym) or np.isscalar(a)
+
+    # tolerance comparisons by their numpy definition |a - b| <= atol + rtol |b| (each element is a
+    # comparison of symbolic values: decided / forked by the path executor)
+    def isclose(self, a, b, rtol=1e-05, atol=1e-08, equal_nan=False):
+        a, b = self.asarray(a), self.asarray(b)
+        if not ((isinstance(a, Sym) or a.dtype == object) or (isinstance(b, Sym) or b.dtype == object)):
+            return np.isclose(a, b, rtol=rtol, atol=atol, equal_nan=equal_nan)
+        if isinstance(a, Sym) and isinstance(b, Sym):
+            return bool(abs(a - b) <= Fr(atol) + Fr(rtol) * abs(b))
+        a2, b2 = np.broadcast_arrays(np.asarray(a, dtype=object), np.asarray(b, dtype=object))
+        out = np.empty(a2.shape, dtype=bool)
+        for idx in np.ndindex(a2.shape):
+            out[idx] = bool(abs(J(a2[idx]) - J(b2[idx])) <= Fr(atol) + Fr(rtol) * abs(J(b2[idx])))
+        return out
+
+    def allclose(self, a, b, rtol=1e-05, atol=1e-08, equal_nan=False):
+        return bool(np.all(self.isclose(a, b, rtol=rtol, atol=atol, equal_nan=equal_nan)))
+
+    def full(self, shape, fill_value, dtype=None):
+        if isinstance(fill_value, Sym) or (isinstance(fill_value, np.ndarray) and fill_value.dtype == object):
+            out = np.empty(shape, dtype=object)
+            out[...] = fill_value
+            return out
+        return np.full(shape, fill_value, dtype=dtype)
+
+    def mean(self, a, axis=None, **kw):
+        a = self.asarray(a)
+        if isinstance(a, Sym):
+            return a
+        if a.dtype != object:
+            return np.mean(a, axis=axis, **kw)
+        n = a.size if axis is None else a.shape[axis]
+        return np.sum(a, axis=axis) * Fr(1, n)
 
 
 symnp = SymNP()
